@@ -18,7 +18,7 @@ package qrAlgorithm
 
 /* -------------------------------------------------------------------------- */
 
-//import   "fmt"
+import   "fmt"
 import   "math"
 
 import . "github.com/pbenner/autodiff"
@@ -135,8 +135,15 @@ func qrAlgorithmSymmetric(inSitu *InSitu, epsilon float64) (Matrix, Matrix, erro
     Z = Z_
   }
 
-  for p, q := 0, 0; q < n; {
+  // the number of QR steps is bounded, otherwise the algorithm does not
+  // terminate if the convergence criterion cannot be met
+  maxIterations := 10000 + 1000*n*n
 
+  for p, q, k := 0, 0, 0; q < n; k++ {
+
+    if k > maxIterations {
+      return nil, nil, fmt.Errorf("QR algorithm did not converge")
+    }
     for i := 0; i < n-1; i++ {
       t11 := T.At(i  ,i  ).GetFloat64()
       t21 := T.At(i+1,i  ).GetFloat64()
